@@ -254,7 +254,7 @@ class Closure:
         self.node, self.env, self.me = node, env, me
 
     def __call__(self, *args, **kwargs):
-        return self.me.call_def(self.node, list(args), kwargs, dict(self.env))
+        return self.me.call_def(self.node, list(args), kwargs, dict(self.env), writeback=self.env)
 
 
 _BUILTINS = {
@@ -343,6 +343,10 @@ class MiniEval:
                 return not self.truth(v)
             if isinstance(e.op, ast.USub):
                 return -v
+            if isinstance(e.op, ast.Invert) and isinstance(v, int):
+                return ~v
+            if isinstance(e.op, ast.UAdd) and isinstance(v, (int, float)):
+                return +v
         if isinstance(e, ast.BoolOp):
             if isinstance(e.op, ast.And):
                 v = True
@@ -883,7 +887,7 @@ class MiniEval:
                 raise
         raise AnalysisError(f"{self.where}: `{u(e)}` calls a non-callable abstract value {fn!r}")
 
-    def call_def(self, fnode, args: list, kwargs: dict, closure_env: Dict[str, Any]):
+    def call_def(self, fnode, args: list, kwargs: dict, closure_env: Dict[str, Any], writeback: Optional[Dict[str, Any]] = None):
         """interpret a FunctionDef on evaluated arguments (inlined helper / closure / lambda)"""
         if self.depth > 60:
             raise AnalysisError(f"{self.where}: helper inlining depth exceeded at {getattr(fnode, 'name', '?')}")
@@ -931,6 +935,15 @@ class MiniEval:
         except _Return as r:
             self.steps += sub.steps
             return r.v
+        finally:
+            if writeback is not None and isinstance(getattr(fnode, "body", None), list):
+                # `nonlocal x`: the enclosing function's variable is the one assigned
+                for st_ in fnode.body:
+                    for n_ in ast.walk(st_) if not isinstance(st_, (ast.FunctionDef, ast.AsyncFunctionDef, ast.ClassDef)) else []:
+                        if isinstance(n_, ast.Nonlocal):
+                            for nm in n_.names:
+                                if nm in sub.env:
+                                    writeback[nm] = sub.env[nm]
         self.steps += sub.steps
         return None
 
@@ -1016,6 +1029,7 @@ class MiniEval:
                 self.run(st.orelse)
         elif isinstance(st, ast.While):
             n = 0
+            broke = False
             while self.truth(self.ev(st.test)):
                 n += 1
                 if n > 10000:
@@ -1023,9 +1037,12 @@ class MiniEval:
                 try:
                     self.run(st.body)
                 except _Break:
+                    broke = True
                     break
                 except _Continue:
                     continue
+            if not broke:
+                self.run(st.orelse)  # `while ... else`: runs when the loop ends without break
         elif isinstance(st, ast.With):
             exits = []
             for it in st.items:
@@ -1044,9 +1061,7 @@ class MiniEval:
                 for ex in reversed(exits):
                     ex(None, None, None)
         elif isinstance(st, ast.Try):
-            self.run(st.body)
-            self.run(st.orelse)
-            self.run(st.finalbody)
+            self._try(st)
         elif isinstance(st, ast.Assert):
             if not self.truth(self.ev(st.test)):
                 raise Raised(f"AssertionError: {u(st.test)}", st)
@@ -1059,6 +1074,8 @@ class MiniEval:
         elif isinstance(st, (ast.Pass, ast.Import, ast.ImportFrom, ast.Global, ast.Nonlocal)):
             return
         elif isinstance(st, ast.Raise):
+            if st.exc is None and getattr(self, "_handling", None):
+                raise self._handling[-1]  # bare `raise` inside a handler re-raises what was caught
             raise Raised(u(st.exc) if st.exc else "<reraise>", st)
         elif isinstance(st, (ast.FunctionDef, ast.AsyncFunctionDef)):
             self.env[st.name] = Closure(st, self.env, self)
@@ -1081,6 +1098,57 @@ class MiniEval:
                     raise AnalysisError(f"{self.where}: statement form not supported by the evaluator: `{u(st)[:80]}`")
         else:
             raise AnalysisError(f"{self.where}: statement form not supported by the evaluator: `{u(st)[:80]}`")
+
+    @staticmethod
+    def _exc_class(r: "Raised") -> str:
+        import re as _re
+
+        m = _re.match(r"\s*(?:[A-Za-z_][\w]*\.)*([A-Za-z_]\w*)", r.exc_text)
+        return m.group(1) if m else ""
+
+    def _handler_matches(self, h: ast.ExceptHandler, r: "Raised") -> bool:
+        import builtins as _b
+
+        if h.type is None:
+            return True
+        names = [u(x).split(".")[-1] for x in (h.type.elts if isinstance(h.type, ast.Tuple) else [h.type])]
+        got = self._exc_class(r)
+        for nm in names:
+            if nm in ("Exception", "BaseException") or nm == got:
+                return True
+            a, b = getattr(_b, got, None), getattr(_b, nm, None)
+            if isinstance(a, type) and isinstance(b, type) and issubclass(a, b):
+                return True
+        return False
+
+    def _try(self, st: ast.Try):
+        """try / except / else / finally as Python runs them: a Raised of the analysed code is caught by the first handler
+        whose class names it (builtin hierarchy; `Exception` catches every Raised), else runs when nothing was raised,
+        finally always runs - also when the body returns, breaks or continues"""
+        try:
+            try:
+                self.run(st.body)
+            except Raised as r:
+                for h in st.handlers:
+                    if self._handler_matches(h, r):
+                        if h.name:
+                            msg = r.exc_text
+                            rn = getattr(r, "node", None)
+                            if isinstance(rn, ast.Raise) and isinstance(rn.exc, ast.Call) and len(rn.exc.args) == 1 and isinstance(rn.exc.args[0], ast.Constant) and isinstance(rn.exc.args[0].value, str):
+                                msg = rn.exc.args[0].value  # str(e) of an exception raised with one literal message
+                            self.env[h.name] = Sym(f"exception:{self._exc_class(r)}", attrs={"args": (msg,), "$isa": {self._exc_class(r), "Exception"}}, methods={"__str__": lambda msg=msg: msg})
+                        self._handling = getattr(self, "_handling", []) + [r]
+                        try:
+                            self.run(h.body)
+                        finally:
+                            self._handling = self._handling[:-1]
+                        break
+                else:
+                    raise
+            else:
+                self.run(st.orelse)
+        finally:
+            self.run(st.finalbody)
 
     def _match(self, st: ast.Match):
         subj = self.ev(st.subject)
